@@ -36,6 +36,8 @@ def run(prog, rep, tier, snap):
     rep.call(bitint.r19_6, prog, rep)
     rep.rule("R19.7", "cursor coverage: no cursor value below the end bound ends a bitset iteration blindly", 4)
     rep.call(bitint.r19_7, prog, rep)
+    rep.rule("R19.11", "degrading a single value clears the tag; no one-step shift by cursor + c", 4)
+    rep.call(bitint.r19_11, prog, rep)
     rep.rule("R19.10", "the stored number is read off `bi >> 1` only behind the tag test", 1)
     rep.call(bitint.r19_10, prog, rep)
     rep.rule("R19.9", "signed mask words are not compared relationally in bitset mode", 2)
